@@ -24,7 +24,7 @@ def fail_once(ctx, key, detail, replay):
     """one report per key (what fails); further occurrences are only counted"""
     _seen[key] = _seen.get(key, 0) + 1
     if _seen[key] == 1:
-        fail_once(ctx, key, detail, replay)
+        ctx.fail(key, detail, replay)
 
 
 def hx(arr):
